@@ -33,7 +33,13 @@ def time_diff_s(a, b):
 
 
 def hz(q):
-    """Exact value of a scalar frequency Quantity in Hz (after astropy's unit scaling)."""
+    """Exact value of a scalar frequency Quantity in Hz (after astropy's unit scaling).
+
+    A Quantity holding a narrower float (float32/float16 header fields) denotes exactly that binary value times its unit; astropy
+    would do the unit scaling in the narrow type, so it is done here in rationals (decimal unit scale)."""
+    dt = getattr(getattr(q, "value", None), "dtype", None)
+    if dt is not None and dt.kind == "f" and dt.itemsize < 8:
+        return F(float(q.value)) * F(repr(float(q.unit.to(u.Hz))))
     return F(float(q.to_value(u.Hz)))
 
 
